@@ -40,3 +40,23 @@ pub open spec fn set_opts(parts: Seq<RespFrame>, i: int, o: SetOpts) -> Option<S
 }
 /// remaining time in whole seconds, rounded up; -2 only when nothing remains
 pub open spec fn ttl_seconds(n: int) -> int { if n == 0 { -2 } else if n % 1_000_000_000 == 0 { n / 1_000_000_000 } else { n / 1_000_000_000 + 1 } }
+/// DEL k1 .. : keys are removed left to right; a key named twice counts once (it is gone the second time); arguments that are
+/// not bulk strings are skipped
+pub open spec fn del_upto(ds: DS, ttl: TTL, db: int, parts: Seq<RespFrame>, n: int) -> (int, DS, TTL)
+    decreases n
+{
+    if n <= 1 { (0, ds, ttl) } else {
+        let p = del_upto(ds, ttl, db, parts, n - 1);
+        match arg(parts, n - 1) {
+            Some(k) => (p.0 + (if p.1.contains_key((db, k)) { 1int } else { 0int }), p.1.remove((db, k)), p.2.remove((db, k))),
+            None => p,
+        }
+    }
+}
+/// EXISTS k1 .. : how many of the named keys are there (a key named twice counts twice)
+pub open spec fn exists_upto(ds: DS, db: int, parts: Seq<RespFrame>, n: int) -> int
+    decreases n
+{
+    if n <= 1 { 0 } else { exists_upto(ds, db, parts, n - 1) + (match arg(parts, n - 1) { Some(k) => if ds.contains_key((db, k)) { 1int } else { 0int }, None => 0int }) }
+}
+
